@@ -45,13 +45,16 @@ func (g *Gen) RandomGenesis() Genesis {
 	}
 	ge := Genesis{Keypers: ks, Threshold: uint64(1 + r.Intn(n)), ChainID: vh.Pick(r, chainIDs...)}
 	ge.InitialEon = vh.Pick(r, uint64(0), 0, 5, 8, 18446744073709551614)
-	switch r.Intn(4) {
+	switch r.Intn(6) {
 	case 0:
 		ge.ForkNil = true
 	case 1:
 		ge.ForkEnabled, ge.ForkHeight = false, 2
 	case 2:
 		ge.ForkEnabled, ge.ForkHeight = true, 0
+	case 3:
+		// legacy genesis format: only the old checkInUpdate field
+		ge.ForkLegacy, ge.ForkHeight = true, int64(vh.Pick(r, uint64(0), 1, 2, 3, 4))
 	default:
 		ge.ForkEnabled, ge.ForkHeight = true, 3
 	}
